@@ -203,6 +203,9 @@ fn explore_parent(ctx: &mut Ctx, parent: &Parent, depth: usize, pos_depth: usize
     match parent {
         Parent::Bv(d) | Parent::Sparse(d) | Parent::Rl(d) | Parent::BvLoaded(d) | Parent::SparseLoaded(d) | Parent::RlLoaded(d) => {
             let m = d.model();
+            // Large parents exist for their internal regimes (many blocks, several index buckets), not for deep
+            // call trees: those are explored exhaustively on the small parents.
+            let (depth, pos_depth) = if m.len > 300 && depth != usize::MAX { (depth.min(4), pos_depth.min(3)) } else { (depth, pos_depth) };
             let bools = m.to_bools();
             let ones: Vec<(usize, usize)> = m.positions().into_iter().enumerate().map(|(r, p)| (r, p as usize)).collect();
             let zeros: Vec<(usize, usize)> = m.zero_positions().into_iter().enumerate().map(|(r, p)| (r, p as usize)).collect();
